@@ -142,7 +142,14 @@ func (sg *smlGen) item(depth int, vars bool) []string {
 				body = append(body, sg.varName())
 			case vars && i > 0 && !ell && g.chance(0.2):
 				ell = true
-				body = append(body, "...")
+				// mostly plain; now and then with a number (the parser numbers ellipses itself and warns when the
+				// number written differs: a warning per message, whatever the messages before it did)
+				switch g.pick(6) {
+				case 0:
+					body = append(body, fmt.Sprintf("...[%d]", g.pick(4)))
+				default:
+					body = append(body, "...")
+				}
 			default:
 				body = append(body, sg.item(depth-1, vars)...)
 			}
@@ -513,6 +520,11 @@ func suiteC05(c *Ctx) {
 	}
 	emit(`S1F1 <A "C:\path\new" 0x0A "tab\t"> .`, mk(func() ast.ItemNode { return ast.NewASCIINode("C:\\path\\new\ntab\\t") }), "backslashes are literal")
 	emit(`S1F1 <A "a" "b" 0x22 "c"> .`, mk(func() ast.ItemNode { return ast.NewASCIINode("ab\"c") }), "concatenation")
+	// literals written with nothing between them are still separate literals: there is no escape for a quote
+	emit(`S1F1 <A "ab""cd"> .`, mk(func() ast.ItemNode { return ast.NewASCIINode("abcd") }), "adjacent quoted")
+	emit(`S1F1 <A[4] "ab""cd"> .`, mk(func() ast.ItemNode { return ast.NewASCIINode("abcd") }), "adjacent quoted")
+	emit(`S1F1 <A """"> .`, mk(func() ast.ItemNode { return ast.NewASCIINode("") }), "adjacent quoted")
+	emit(`S1F1 <A "a"0x41"b"65> .`, mk(func() ast.ItemNode { return ast.NewASCIINode("aAbA") }), "adjacent quoted")
 	emit(`S1F1 <A> .`, mk(func() ast.ItemNode { return ast.NewASCIINode("") }), "empty")
 	emit(`S1F1 <A ""> .`, mk(func() ast.ItemNode { return ast.NewASCIINode("") }), "empty quoted")
 	// floats: the value is what strconv.ParseFloat gives for the text, at the item's width
@@ -718,6 +730,23 @@ func suiteC15(c *Ctx) {
 		}
 	}
 	flush()
+	// white space of every kind inside the brackets (a declaration may be spread over lines, also CRLF ones)
+	for _, ty := range []string{"A", "U2", "L", "B", "F8"} {
+		pre := "S1F1 <" + ty
+		col := len(pre) + 1
+		for _, ws := range []string{" ", "\t", "\n", "\r\n", "\r", " \r\n\t"} {
+			for lo := 0; lo <= 3; lo++ {
+				for n := 0; n <= 4; n++ {
+					add(fmt.Sprintf("%s[%s%d%s] %s> .", pre, ws, lo, ws, elems[ty](n)), n != lo, col)
+					add(fmt.Sprintf("%s[%d%s..%s%d] %s> .", pre, lo, ws, ws, lo+1, elems[ty](n)), !(lo <= n && n <= lo+1), col)
+					add(fmt.Sprintf("%s[%d..%s%d%s] %s> .", pre, lo, ws, lo+1, ws, elems[ty](n)), !(lo <= n && n <= lo+1), col)
+					add(fmt.Sprintf("%s[%s%d%s..] %s> .", pre, ws, lo, ws, elems[ty](n)), n < lo, col)
+					add(fmt.Sprintf("%s[..%s%d%s] %s> .", pre, ws, lo, ws, elems[ty](n)), n > lo, col)
+				}
+			}
+		}
+	}
+	flush()
 	// bounds are decimal numbers: leading zeros do not make them octal
 	for _, ty := range []string{"A", "U1", "L", "B"} {
 		pre := "S1F1 <" + ty
@@ -789,10 +818,66 @@ func suiteC15(c *Ctx) {
 			}
 		}
 	}
+	// an ASCII variable repeated by an ellipsis keeps its bounds in every copy
+	for lo := 0; lo <= 3; lo++ {
+		for _, hi := range []int{-1, lo, lo + 2} {
+			decl := fmt.Sprintf("[%d..%d]", lo, hi)
+			if hi == -1 {
+				decl = fmt.Sprintf("[%d..]", lo)
+			}
+			text := fmt.Sprintf("S1F1 <L <L <A%s v> <U1 w>> ...> .", decl)
+			st := []Step{smlStep(text), {Op: "PK", Ref: 0, Idx: 0}}
+			ex0 := &Exec{}
+			ex0.Run(st)
+			m0, ok0 := ex0.msg(1)
+			if !ok0 {
+				continue
+			}
+			ell := ""
+			for _, v := range m0.Variables() {
+				if strings.HasPrefix(v, "...") {
+					ell = v // the parser numbers the ellipsis: "...[0]"
+				}
+			}
+			st = append(st, Step{Op: "FM", Ref: 1, Map: []KV{{[]byte(ell), Arg{T: 'i', IK: KInt, I: 2}}}})
+			ex := &Exec{}
+			ex.Run(st)
+			m, ok := ex.msg(2)
+			if !ok || len(m.Variables()) < 4 {
+				continue
+			}
+			for _, v := range m.Variables() {
+				if !strings.HasPrefix(v, "v") {
+					continue
+				}
+				for n := 0; n <= 6; n++ {
+					st = append(st, Step{Op: "FM", Ref: 2, Map: []KV{{[]byte(v), Arg{T: 's', S: []byte(strings.Repeat("y", n))}}}})
+				}
+			}
+			c15Copies[text] = [2]int{lo, hi}
+			c.emit(Case{"ascii-variable-copies", st, false})
+		}
+	}
 	_ = g
 }
 
+var c15Copies = map[string][2]int{}
+
 func monitorC15(c *Ctx, id string, cs Case, e *Exec, final []string) {
+	if cs.Label == "ascii-variable-copies" {
+		b := c15Copies[string(cs.Steps[0].S)]
+		for i := 3; i < len(cs.Steps); i++ {
+			n := len(cs.Steps[i].Map[0].V.S)
+			_, built := e.Pool[i].(*ast.DataMessage)
+			want := n >= b[0] && (b[1] == -1 || n <= b[1])
+			c.stats["monitor:copy-fills"]++
+			if built != want {
+				c.hit(id, cs, "copy-bound", fmt.Sprintf("a copy of an ASCII variable declared [%d..%d] filled with %d characters: accepted=%v", b[0], b[1], n, built))
+				return
+			}
+		}
+		return
+	}
 	if cs.Label == "ascii-variable" {
 		text := string(cs.Steps[0].S)
 		// recompute the bounds from the declaration independently
@@ -979,6 +1064,14 @@ func suiteC06(c *Ctx) {
 			for _, rest := range []string{" .", " H->E .", " H<-E name .", " <A \"x\"> .", " name <L> .", " h<->e <U1 1> ."} {
 				c.emit(Case{"header-ranges", []Step{smlStep(sf + w + rest)}, false})
 			}
+		}
+	}
+	// items the constructors refuse (the parser recovers from their panic): the refusal is an error of the text,
+	// never only a warning, and nothing of the text is returned
+	for _, bad := range []string{"<L a ... ...>", "<L <A \"x\"> ... b ...>", "<A[5..2] x>", "<A[3..1] \"abc\">", "<L x x>", "<L x <U1 x>>",
+		"<U1 a a>", "<L a ...[0] ...[1]>", "<A[2..1] n>", "<L <L p ... ...> q>", "<B 0b1 v v>", "<BOOLEAN T t t>"} {
+		for _, ctx := range []string{"S1F1 %s .", "S1F1 W H->E n %s .\nS1F2 <A \"tail\"> .", "S2F2 <A \"head\"> .\nS1F1 %s .\nS3F3 <U1 1> .", "S1F1 <L <A \"z\"> %s> ."} {
+			c.emit(Case{"refused-by-constructor", []Step{smlStep(fmt.Sprintf(ctx, bad))}, false})
 		}
 	}
 	n := c.scale(3000, 150000)
@@ -1447,8 +1540,48 @@ func suiteC19(c *Ctx) {
 			steps2 = append(steps2, smlStep(whole2))
 			c.emit(Case{"concat-prefixed", steps2, false})
 		}
+		if i%5 == 1 {
+			var steps4 []Step
+			whole4 := ""
+			for j := 0; j < 2+g.pick(3); j++ {
+				t := warnTexts[g.pick(len(warnTexts))]
+				steps4 = append(steps4, smlStep(t))
+				whole4 += t
+			}
+			steps4 = append(steps4, smlStep(whole4))
+			c.emit(Case{"concat-warnings", steps4, false})
+		}
+		// and in front of bytes that some readers take for the end of the input (Ctrl-Z, NUL, Ctrl-D): a text that is
+		// accepted with such a byte after it is still followed by the next text
+		if i%6 == 3 {
+			suf := endSuffixes[g.pick(len(endSuffixes))]
+			var steps3 []Step
+			whole3 := ""
+			for j, t := range texts {
+				steps3 = append(steps3, smlStep(t+suf))
+				if j > 0 {
+					whole3 += separators[g.pick(len(separators))]
+				}
+				whole3 += t + suf
+			}
+			steps3 = append(steps3, smlStep(whole3))
+			c.emit(Case{"concat-suffixed", steps3, false})
+		}
 	}
 }
+
+// texts whose messages each draw the same kind of warning (an ellipsis written with a number that is not the
+// parser's count, a missing direction): the warnings of a concatenation are those of its texts, one by one
+var warnTexts = []string{
+	"S1F1 H->E <L <U1 a> ...[3]> .\n",
+	"S2F1 W <L <A x> <L <B b> ...[7]>> .\n",
+	"S3F1 H<-E n <L <L <U1 p> ...[2]> ...[5]> .\n",
+	"S4F1 <L <BOOLEAN t> ...[1]> .\n",
+	"S5F1 H->E <L <U2 q> ...> .\n",
+	"S6F1 <A \"no direction\"> .\n",
+}
+
+var endSuffixes = []string{"\x1a", "\x1a\n", "\n\x1a", "\x00", "\x04", " \x1a ", "\x1a\x1a"}
 
 var startPrefixes = []string{"\xef\xbb\xbf", "\xef\xbb\xbf\n", "\ufeff ", "\u200b", "\x00", "\x0c", "\x0b", "\u00a0", "\u2028", "\u3000", "\ufffe", "\xff\xfe", "\u0085", "\x1a"}
 
@@ -1497,6 +1630,27 @@ func monitorC19(c *Ctx, id string, cs Case, e *Exec, final []string) {
 var c04Names = []string{"", "Ver.", "a.b.", "x..", "Name", "AreYouThere", "établi", "名前", "a.b", "x-1", "N/A", "q\"uote", "a<b", "b>c", "R2D2", "_", "E5", "Ünïcode", "a/b", "100%", "#1", "(x)", "{y}", "x,y", "é"}
 
 func suiteC04(c *Ctx) {
+	// deep nesting: the printed form of a chain of lists is parsed back whatever its depth (the printed text grows
+	// with the square of the depth and the lexer is slow on it: 1100 levels, half a minute, in the thorough tier only)
+	depths := []int{40, 150}
+	if c.thorough {
+		depths = append(depths, 600, 1100)
+	}
+	for _, d := range depths {
+		g := c.gen()
+		it := g.add(Step{Op: "NU", W: 1, Args: []Arg{{T: 'i', IK: KInt, I: 7}, {T: 's', S: []byte("deep")}}})
+		for k := 0; k < d; k++ {
+			it = g.add(Step{Op: "NL", Args: []Arg{{T: 'r', Ref: it}}})
+		}
+		m := g.add(Step{Op: "NM", Name: []byte("Deep"), Stream: 1, Func: 1, WBit: 0, Dir: []byte("H->E"), Ref: it})
+		ex := &Exec{}
+		ex.Run(g.steps)
+		if dm, ok := ex.Pool[m].(*ast.DataMessage); ok {
+			sp := g.add(smlStep(dm.String()))
+			g.add(Step{Op: "PK", Ref: sp, Idx: 0})
+			c.emit(Case{"print-parse", g.steps, false})
+		}
+	}
 	n := c.scale(1500, 100000)
 	for i := 0; i < n; i++ {
 		g := c.gen()
